@@ -2,7 +2,7 @@
 import numpy as np
 from .. import corpus, harness
 
-N_QUICK, N_THOROUGH = 40, 400  # chunks of 40 templates
+N_QUICK, N_THOROUGH = 40, 2000  # chunks of 40 templates
 
 
 def _work(args):
